@@ -279,13 +279,88 @@ fn bit_positions(v: usize) -> Vec<(usize, usize)> {
 }
 
 pub fn aligned_payload(v: usize, e: usize, m: usize, invert: bool) -> Vec<u8> {
+    pattern_payload(v, e, &|r, c| mask_cond(m, r, c) != invert)
+}
+
+/// BANDED payloads: the symbol is cut into horizontal bands of `band` rows, band `i` is prepared for mask `i % 8`: once
+/// that mask is applied its rows show `motif` (a finder-like `101110` repetition — a 1011101 window every six modules and
+/// identical rows, hence long vertical runs — or plain dark). Every one of the eight candidates then has its own bad
+/// bands, so ALL eight penalties are large at once (tens of thousands in version 40): ranking arithmetic narrower than
+/// the scores, or a shortcut that assumes some candidate is good, shows here.
+pub fn banded_payload(v: usize, e: usize, band: usize, motif: usize) -> Vec<u8> {
+    pattern_payload(v, e, &|r, c| {
+        let want = match motif {
+            0 => [true, false, true, true, true, false][c % 6],
+            1 => true,
+            2 => [true, false, true, true, true, false][r % 6],
+            _ => [true, false, true, true, true, false][(r + c) % 6],
+        };
+        want != mask_cond((r / band.max(1)) % 8, r, c)
+    })
+}
+
+/// the same with band heights BALANCED against the implementation's own recorded scores: a few rounds of "two more rows
+/// for the mask whose candidate is cheapest, two fewer for the dearest", so that the cheapest candidate is as dear as
+/// the layout allows (version 40: every candidate above 65 535)
+pub fn balanced_banded_payload(v: usize, e: usize, motif: usize) -> Vec<u8> {
+    let n = h::version_size(version_of(v));
+    let mut heights = [n / 8; 8];
+    let make = |heights: &[usize; 8]| {
+        let hs = *heights;
+        pattern_payload(v, e, &move |r, c| {
+            let want = match motif {
+                0 => [true, false, true, true, true, false][c % 6],
+                _ => [true, false, true, true, true, false][(r + c) % 6],
+            };
+            let (mut acc, mut band) = (0usize, 7usize);
+            for (i, hh) in hs.iter().enumerate() {
+                acc += hh;
+                if r < acc {
+                    band = i;
+                    break;
+                }
+            }
+            want != mask_cond(band, r, c)
+        })
+    };
+    let mut best = make(&heights);
+    let mut best_min = 0u32;
+    for _ in 0..14 {
+        let inp = make(&heights);
+        h::recorder_start();
+        let _ = crate::common::build(&inp, Opts { ecl: Some(e), mode: Some(2), version: Some(v), mask: None });
+        let cands = h::recorder_take();
+        if cands.len() != 8 {
+            return inp;
+        }
+        let mut sc = [0u32; 8];
+        for c in &cands {
+            sc[(c.mask as usize) % 8] = c.score;
+        }
+        let lo = (0..8).min_by_key(|&i| sc[i]).unwrap_or(0);
+        let hi = (0..8).max_by_key(|&i| sc[i]).unwrap_or(0);
+        if sc[lo] > best_min {
+            best_min = sc[lo];
+            best = inp;
+        }
+        if heights[hi] <= 6 || lo == hi {
+            break;
+        }
+        heights[lo] += 2;
+        heights[hi] -= 2;
+    }
+    best
+}
+
+/// byte-mode payload whose PLACED (unmasked) encoding-region modules equal `f(row, column)` wherever the payload controls them
+pub fn pattern_payload(v: usize, e: usize, f: &dyn Fn(usize, usize) -> bool) -> Vec<u8> {
     let ver = version_of(v);
     let pos = bit_positions(v);
     let mb = h::version_max_bytes(ver);
     // desired interleaved sequence
     let mut seq = vec![0u8; mb];
     for (k, (r, c)) in pos.iter().enumerate() {
-        if k / 8 < mb && (mask_cond(m, *r, *c) != invert) {
+        if k / 8 < mb && f(*r, *c) {
             seq[k / 8] |= 1 << (7 - k % 8);
         }
     }
@@ -324,6 +399,34 @@ pub fn aligned_payload(v: usize, e: usize, m: usize, invert: bool) -> Vec<u8> {
         }
     }
     out
+}
+
+pub fn gen_banded(out: &mut Out, _rng: &mut Rng, thorough: bool, select: bool) {
+    let cells: Vec<(usize, usize, usize, usize)> = if thorough {
+        vec![(39, 0, 22, 3), (39, 1, 22, 3), (39, 0, 11, 3), (38, 0, 22, 3), (39, 0, 11, 0), (39, 0, 22, 0), (39, 0, 11, 1), (39, 0, 11, 2), (39, 1, 11, 0), (38, 0, 11, 0), (35, 0, 10, 0), (29, 0, 8, 0), (19, 0, 6, 0), (9, 0, 4, 0), (1, 0, 3, 0)]
+    } else {
+        vec![(39, 0, 22, 3), (39, 0, 11, 0), (39, 0, 22, 0), (29, 0, 16, 3), (9, 0, 7, 3)]
+    };
+    for (v, e, motif) in if thorough { vec![(39usize, 0usize, 3usize), (39, 1, 3), (39, 0, 0), (38, 0, 3), (37, 0, 3)] } else { vec![(39, 0, 3)] } {
+        out.job(move || {
+            let inp = balanced_banded_payload(v, e, motif);
+            if select {
+                crate::gen::select_line(&inp, e, 2, v, None)
+            } else {
+                crate::gen::build_line(&inp, Opts { ecl: Some(e), mode: Some(2), version: Some(v), mask: None })
+            }
+        });
+    }
+    for (v, e, band, motif) in cells {
+        out.job(move || {
+            let inp = banded_payload(v, e, band, motif);
+            if select {
+                crate::gen::select_line(&inp, e, 2, v, None)
+            } else {
+                crate::gen::build_line(&inp, Opts { ecl: Some(e), mode: Some(2), version: Some(v), mask: None })
+            }
+        });
+    }
 }
 
 pub fn gen_aligned(out: &mut Out, rng: &mut Rng, thorough: bool, select: bool) {
